@@ -25,7 +25,7 @@ RULE = (
     "to_nplike/to_nparray(10 dtypes x 1-3 dim shapes), update_from_nplike(source dtype x dest dtype with exact "
     "conversion x C/F/strided/reversed/N-D/0-length/non-native-byte-order layouts), update_from_xbuffer(other buffer same context | buffer "
     "of another context, either kind | same buffer, disjoint ranges), scalar _to_buffer/_from_buffer/"
-    "_array_to_buffer/_array_from_buffer for the 10 numeric kinds, grow(n) with an allocated prefix and an optional freed hole (every old byte carried over, capacity + n)}. Buffers hold a position-dependent byte pattern; "
+    "_array_to_buffer/_array_from_buffer for the 10 numeric kinds, grow(n) with an allocated prefix and an optional freed hole, with and without a typed view taken before (every old byte carried over, capacity + n; a view handed out afterwards shows and aliases the NEW storage both ways)}. Buffers hold a position-dependent byte pattern; "
     "oracle: whole-buffer equality with the bytes reference model (exactly the requested bytes at the requested "
     "offsets, everything else untouched, capacity and storage length unchanged), extracted copies stay unchanged "
     "when the buffer is written afterwards and vice versa, typed views alias exactly the bytes they cover in both "
